@@ -114,25 +114,18 @@ def run(res, tier):
     fx = common.load_units(res, ['regex/QueryFilter.cpp'], fn_regex=r'QueryFilter|Lexer')
     res.functions_analysed = sum(1 for f in fx.funcs.values() if f.full)
     # concrete filter classes = classes created by the factory
-    fac = [f for f in fx.funcs.values() if f.full and f.q == 'muscle::MuscleQueryFilterFactory::CreateQueryFilter' and any(n['k'] == 'SwitchStmt' for n in f.walk())]
+    fac = [f for f in fx.funcs.values() if f.full and f.q == 'muscle::MuscleQueryFilterFactory::CreateQueryFilter' and any(len(t['cases']) >= 8 for t in A.dispatch_tables(f))]
     if not fac:
         raise AnalysisBroken('MuscleQueryFilterFactory::CreateQueryFilter(uint32) not found')
     fac = fac[0]
-    sw = [n for n in fac.walk() if n['k'] == 'SwitchStmt'][0]
+    tab = max(A.dispatch_tables(fac), key=lambda t: len(t['cases']))       # the type-code dispatch: a switch, or the same thing as an if/else-if chain
+    sw = tab['node']
     created = {}
-    pending = []
-    for c in sw.role('body')['ch']:
-        x = c
-        while x is not None and x['k'] in ('CaseStmt', 'DefaultStmt'):
-            pending.append(x.get('cv') if x['k'] == 'CaseStmt' else 'default')
-            x = x['ch'][-1] if x['ch'] else None
-        if x is None:
-            continue
-        news = [y for y in x.walk() if y['k'] == 'CXXNewExpr']
+    for (vals, stmts) in tab['cases']:
+        news = [y for st in stmts for y in st.walk() if y['k'] == 'CXXNewExpr']
         if news:
-            for cv in pending:
+            for cv in (vals if vals != 'default' else ['default']):
                 created[cv] = fac.types[news[0]['at']]
-        pending = []
     enum = None
     for e in fx.enums:
         if 'QUERY_FILTER_TYPE_WHATCODE' in e['consts']:
